@@ -602,7 +602,11 @@ def rule_store_config(ctx, WANT=('max_capacity', 'time_to_live', 'time_to_idle')
     for F in chain:
         bF = prog.bodies[F]
         try:
-            pathsF = [p for p in ctx.symex(inline_depth=0, loop_visits=2, inline_pred=lambda n_, bb, d: False).run(F) if not p.diverged]
+            # (small read-only accessors of the builder / argument records are stepped into: `self.expirations().0` is a projection)
+            def _acc(n_, bb, d, _chain=frozenset(chain) | all_ctors):
+                return bool(n_ not in _chain and bb.kind != 'closure' and not bb.loops() and len(bb.blocks) <= 6 and
+                            not any(e_[0] == 'write' for e_ in ctx.eff.transitive(n_)) and not any(e_[0] == 'call' for e_ in ctx.eff.direct.get(n_, ())))
+            pathsF = [p for p in ctx.symex(inline_depth=2, loop_visits=2, inline_pred=_acc).run(F) if not p.diverged]
         except PathLimit:
             continue
         seen_sites = set()
@@ -643,3 +647,48 @@ def rule_store_tti(ctx):
 
 def rule_store_capacity(ctx):
     return rule_store_config(ctx, WANT=('max_capacity',), label='MUST-store-config(max_capacity)')
+
+
+def rule_weigh_exact(ctx):
+    r = RuleResult('MUST-weigh', 'the weight of an entry is the configured weigher applied to exactly its key and value whenever a weigher is configured -- unconditionally '
+                   '(also without a capacity bound) and unmodified (no clamp, no cast) -- and the constant 1 otherwise; the decision depends on nothing but the '
+                   'presence of the weigher')
+    prog = ctx.prog
+    n = 0
+    for nid, b in sorted(prog.bodies.items()):
+        if b.kind == 'closure' or b.locals[0]['ty']['s'] != 'u32' or not nid.startswith(('sync::', 'unsync::')):
+            continue
+        names = [b.local_name(i) for i in range(1, b.argc + 1)]
+        reads_weigher = any(e[0] == 'read' and e[2] == 'weigher' for x in [nid] + prog.closures_of.get(nid, []) for e in ctx.eff.direct.get(x, ()))
+        if not ('weigher' in names or nid.endswith('::weigh') or reads_weigher):
+            continue
+        for p in ctx.symex(inline_depth=2).run(nid):
+            if p.diverged:
+                continue
+            n += 1
+            wtag = [(c, v) for c, v in p.conds if isinstance(c, tuple) and c[0] == 'discr' and ('weigher' in fmt(c) or (isinstance(c[1], tuple) and c[1][0] == 'param' and
+                                                                                                                   b.local_name(c[1][1]) == 'weigher'))]
+            other = [(c, v) for c, v in p.conds if (c, v) not in wtag]
+            has = wtag[-1][1] == 1 if wtag else None
+            ret = p.ret
+            if has:
+                W = ('payload', wtag[-1][0][1], 'Some', 0)
+                args_ok = isinstance(ret, tuple) and ret and ret[0] == 'call' and (ret[1] == 'callback' or str(ret[1]).endswith(('call_mut', 'call', 'call_once'))) and ret[2] and ret[2][0] == W
+                flat = []
+                if args_ok:
+                    for a in ret[2][1:]:
+                        flat += list(a[1]) if (isinstance(a, tuple) and a and a[0] == 'tuple') else [a]
+                    args_ok = len(flat) == 2 and all(isinstance(a, tuple) and a and a[0] == 'param' for a in flat) and flat[0] != flat[1]
+                ok = args_ok and not other
+            elif has is False:
+                ok = ret == ('c', 1) and not other
+            else:
+                ok = False
+            r.instance(function=nid, weigher_configured=has, returns=fmt(ret)[:70], other_conditions=[fmt(c)[:40] for c, v in other], ok=ok)
+            if not ok:
+                r.violate(nid, 'weight-not-the-weigher', 'weigher=%s' % has, '%s returns `%s` when a weigher %s (other conditions on the path: %s): weighted_size / the capacity '
+                          'accounting no longer sums the user\'s weigher over the entries' % (nid, fmt(ret)[:60], 'is configured' if has else ('is absent' if has is False else 'may or may not be configured'),
+                                                                                             [fmt(c)[:40] + '==' + str(v) for c, v in other][:3]), where=ctx.where(nid),
+                          expected='weigher.map(|w| w(key, value)).unwrap_or(1)')
+    r.require_floor(4 if ctx.has_sync else 2, 'paths of the weigh role(s)')
+    return r
